@@ -92,10 +92,12 @@ class SimLoop(base_events.BaseEventLoop):
         lat = self.exec_lat[self.tape.draw(len(self.exec_lat))]
         if self.ctx is not None and lat:
             self.ctx.fault("executor_latency")
+        state = {"ran": False}
 
         def run():
-            if fut.cancelled():
+            if state["ran"] or fut.cancelled():
                 return
+            state["ran"] = True
             try:
                 res = func(*args)
             except BaseException as e:  # noqa
@@ -105,6 +107,21 @@ class SimLoop(base_events.BaseEventLoop):
             else:
                 fut.set_result(res)
 
+        def on_done(f):
+            # The awaiting task was cancelled before the job completed.  A real pool drops a job that is still queued
+            # and cannot recall one a worker has already picked up: that one completes (now), its result is discarded.
+            # It never runs later than jobs submitted afterwards by the same task.
+            if f.cancelled() and not state["ran"]:
+                if self.tape.draw(2) == 1:
+                    state["ran"] = True
+                    if self.ctx is not None:
+                        self.ctx.fault("executor_job_completed_after_cancel")
+                    try:
+                        func(*args)
+                    except BaseException:  # noqa
+                        pass
+
+        fut.add_done_callback(on_done)
         self.call_later(lat, run)
         return fut
 
